@@ -397,11 +397,10 @@ fn rcv_after_event(e: &Ev) {
                         M.ret = Ret::MustContinue;
                     }
                 } else {
-                    // duplicate / out of order: must not change what is stored; re-ACK allowed;
-                    // a duplicated or reordered DATA never fails the transfer
+                    // duplicate / out of order: must not change what is stored; re-ACK allowed
                     M.saw_ignored = true;
                     M.ack = Need::May;
-                    M.ret = if on(O_RETRY) { Ret::MustContinue } else { Ret::Any };
+                    M.ret = Ret::Any;
                 }
             }
             3 => { M.ret = Ret::MustErr; M.ack = Need::MustNot; M.ended = true; }
@@ -522,14 +521,6 @@ pub fn timeout_any() -> Duration {
     Duration::from_secs(t)
 }
 
-/// every interval the server's option negotiation acknowledges (real parse_options)
-pub fn timeout_any_u64() -> Duration {
-    match crate::server::verif_harness::acked_timeout_any() {
-        Some(d) => d,
-        None => { kani::assume(false); Duration::ZERO }
-    }
-}
-
 pub fn fmt_stub(_args: std::fmt::Arguments<'_>) -> String { String::new() }
 pub fn sleep_stub(_d: Duration) {}
 
@@ -549,7 +540,7 @@ macro_rules! snd_inject {
         fn $name() {
             let fdata: [u8; CAP] = kani::any();
             let b0: u16 = if $b0lo == $b0hi { $b0lo } else { let b: u16 = kani::any(); kani::assume(b >= $b0lo && b <= $b0hi); b };
-            let timeout = if $tmo == 0 { timeout_any() } else if $tmo == 99999 { timeout_any_u64() } else { Duration::from_secs($tmo) };
+            let timeout = if $tmo == 0 { timeout_any() } else { Duration::from_secs($tmo) };
             unsafe {
                 FS.exists = true; FS.gen = 1; FS.len = $flen; FS.data = fdata; FS.fail_at = CAP;
                 verif::START_BLOCK = if $fs { None } else { Some(b0) };
@@ -586,7 +577,7 @@ macro_rules! rcv_inject {
             let fdata: [u8; CAP] = kani::any();
             let pb: [u8; CAP] = kani::any();
             let b0: u16 = if $b0lo == $b0hi { $b0lo } else { let b: u16 = kani::any(); kani::assume(b >= $b0lo && b <= $b0hi); b };
-            let timeout = if $tmo == 0 { timeout_any() } else if $tmo == 99999 { timeout_any_u64() } else { Duration::from_secs($tmo) };
+            let timeout = if $tmo == 0 { timeout_any() } else { Duration::from_secs($tmo) };
             unsafe {
                 FS.exists = true; FS.gen = 1; FS.len = $flen; FS.data = fdata; FS.fail_at = CAP;
                 verif::START_BLOCK = if $start { None } else { Some(b0) };
@@ -622,3 +613,220 @@ macro_rules! rcv_inject {
         }
     };
 }
+
+// ---- instances generated by the driver ----
+snd_inject!(c07_hs_w1_f1, 1, 2, 0, 1, 1, [(31, 99999, 0, -1)], 0, 2114, 1, 1, true, true, 6);
+snd_inject!(c07_hs_w2_f3, 2, 2, 0, 3, 1, [(31, 99999, 0, -1)], 0, 2114, 1, 1, true, true, 6);
+
+/// Test generated for harness `worker::verif_harness::c07_hs_w1_f1` 
+///
+/// Check for `cover`: "witness: event script consumed, cut reached"
+///
+/// # Warning
+///
+/// Concrete playback tests combined with stubs or contracts is highly
+/// experimental, and subject to change.
+///
+/// The original harness has stubs which are not applied to this test.
+/// This may cause a mismatch of non-deterministic values if the stub
+/// creates any non-deterministic value.
+/// The execution path may also differ, which can be used to refine the stub
+/// logic.
+
+#[test]
+fn kani_concrete_playback_c07_hs_w1_f1_13790332484789192026_0() {
+    let concrete_vals: Vec<Vec<u8>> = vec![
+        // 0
+        vec![0],
+        // 255
+        vec![255],
+        // 255
+        vec![255],
+        // 255
+        vec![255],
+        // 255
+        vec![255],
+        // 255
+        vec![255],
+        // 255
+        vec![255],
+        // 255
+        vec![255],
+        // 255
+        vec![255],
+        // 255
+        vec![255],
+        // 255
+        vec![255],
+        // 255
+        vec![255],
+        // 255
+        vec![255],
+        // 255
+        vec![255],
+        // 255
+        vec![255],
+        // 255
+        vec![255],
+        // 10ul
+        vec![10, 0, 0, 0, 0, 0, 0, 0],
+        // 4
+        vec![4],
+        // 63ul
+        vec![63, 0, 0, 0, 0, 0, 0, 0],
+        // 463128577
+        vec![1, 200, 154, 27],
+        // 0
+        vec![0, 0],
+        // 255
+        vec![255],
+        // 255
+        vec![255],
+        // 255
+        vec![255],
+    ];
+    kani::concrete_playback_run(concrete_vals, c07_hs_w1_f1);
+}
+
+
+/// Test generated for harness `worker::verif_harness::c07_hs_w1_f1` 
+///
+/// Check for `cover`: "witness: transfer function returned"
+///
+/// # Warning
+///
+/// Concrete playback tests combined with stubs or contracts is highly
+/// experimental, and subject to change.
+///
+/// The original harness has stubs which are not applied to this test.
+/// This may cause a mismatch of non-deterministic values if the stub
+/// creates any non-deterministic value.
+/// The execution path may also differ, which can be used to refine the stub
+/// logic.
+
+#[test]
+fn kani_concrete_playback_c07_hs_w1_f1_11512208654836983349_1() {
+    let concrete_vals: Vec<Vec<u8>> = vec![
+        // 0
+        vec![0],
+        // 255
+        vec![255],
+        // 255
+        vec![255],
+        // 255
+        vec![255],
+        // 255
+        vec![255],
+        // 255
+        vec![255],
+        // 255
+        vec![255],
+        // 255
+        vec![255],
+        // 255
+        vec![255],
+        // 255
+        vec![255],
+        // 255
+        vec![255],
+        // 255
+        vec![255],
+        // 255
+        vec![255],
+        // 255
+        vec![255],
+        // 255
+        vec![255],
+        // 255
+        vec![255],
+        // 187ul
+        vec![187, 0, 0, 0, 0, 0, 0, 0],
+        // 0
+        vec![0],
+        // 187ul
+        vec![187, 0, 0, 0, 0, 0, 0, 0],
+        // 989726207
+        vec![255, 5, 254, 58],
+        // 0
+        vec![0, 0],
+        // 255
+        vec![255],
+        // 255
+        vec![255],
+        // 255
+        vec![255],
+    ];
+    kani::concrete_playback_run(concrete_vals, c07_hs_w1_f1);
+}
+
+
+/// Test generated for harness `worker::verif_harness::c07_hs_w1_f1` 
+///
+/// Check for `assertion`: ""ORACLE end: datagram emitted after the transfer ended""
+///
+/// # Warning
+///
+/// Concrete playback tests combined with stubs or contracts is highly
+/// experimental, and subject to change.
+///
+/// The original harness has stubs which are not applied to this test.
+/// This may cause a mismatch of non-deterministic values if the stub
+/// creates any non-deterministic value.
+/// The execution path may also differ, which can be used to refine the stub
+/// logic.
+
+#[test]
+fn kani_concrete_playback_c07_hs_w1_f1_594926084594167994_2() {
+    let concrete_vals: Vec<Vec<u8>> = vec![
+        // 0
+        vec![0],
+        // 255
+        vec![255],
+        // 255
+        vec![255],
+        // 255
+        vec![255],
+        // 255
+        vec![255],
+        // 255
+        vec![255],
+        // 255
+        vec![255],
+        // 255
+        vec![255],
+        // 255
+        vec![255],
+        // 255
+        vec![255],
+        // 255
+        vec![255],
+        // 255
+        vec![255],
+        // 255
+        vec![255],
+        // 255
+        vec![255],
+        // 255
+        vec![255],
+        // 255
+        vec![255],
+        // 185ul
+        vec![185, 0, 0, 0, 0, 0, 0, 0],
+        // 1
+        vec![1],
+        // 121ul
+        vec![121, 0, 0, 0, 0, 0, 0, 0],
+        // 335543807
+        vec![255, 253, 255, 19],
+        // 1
+        vec![1, 0],
+        // 255
+        vec![255],
+        // 255
+        vec![255],
+        // 255
+        vec![255],
+    ];
+    kani::concrete_playback_run(concrete_vals, c07_hs_w1_f1);
+}
+
